@@ -57,3 +57,18 @@ pub fn object_summaries(difficulty: &Difficulty, map: &Beatmap) -> Vec<OsuObject
 
     objects.iter().map(summarize).collect()
 }
+
+/// `osu::difficulty::skills::strain::difficulty_value` (aim and speed aggregation).
+pub fn strain_difficulty_value(
+    peaks: crate::util::strains_vec::StrainsVec,
+    reduced_section_count: usize,
+    reduced_strain_baseline: f64,
+    decay_weight: f64,
+) -> f64 {
+    super::difficulty::skills::strain::difficulty_value(
+        peaks,
+        reduced_section_count,
+        reduced_strain_baseline,
+        decay_weight,
+    )
+}
